@@ -8,6 +8,7 @@
 package main
 
 import (
+	"encoding/json"
 	"io"
 	"bufio"
 	"context"
@@ -60,9 +61,24 @@ type crashCtl struct {
 	mu     sync.Mutex
 	budget int // -1: unlimited
 	calls  int
+	// a second replica: the race-th proposal Create of this invocation is preceded by the same Create from elsewhere
+	// (another replica's transaction controller that read "not found" at the same moment); -1: no race
+	race  int
+	raced bool
 }
 
-func (c *crashCtl) reset(b int) { c.mu.Lock(); c.budget, c.calls = b, 0; c.mu.Unlock() }
+func (c *crashCtl) reset(b int) { c.mu.Lock(); c.budget, c.calls, c.race, c.raced = b, 0, -1, false; c.mu.Unlock() }
+func (c *crashCtl) arm(n int)    { c.mu.Lock(); c.race = n; c.mu.Unlock() }
+func (c *crashCtl) racing() bool {
+	c.mu.Lock()
+	defer c.mu.Unlock()
+	if c.race >= 0 && c.calls-1 == c.race && !c.raced {
+		c.raced = true
+		return true
+	}
+	return false
+}
+func (c *crashCtl) didRace() bool { c.mu.Lock(); defer c.mu.Unlock(); return c.raced }
 func (c *crashCtl) before() {
 	c.mu.Lock()
 	if c.budget >= 0 && c.calls >= c.budget {
@@ -99,6 +115,10 @@ type cProps struct {
 
 func (s *cProps) Create(ctx context.Context, p *configapi.Proposal) error {
 	s.c.before()
+	if s.c.racing() {
+		other := *p
+		_ = s.Store.Create(ctx, &other)
+	}
 	return s.Store.Create(ctx, p)
 }
 func (s *cProps) Update(ctx context.Context, p *configapi.Proposal) error {
@@ -194,6 +214,7 @@ type H struct {
 	nb      []*nbCall
 	connSeq int
 	knownC  map[string]bool // connection ids ever used
+	lastDoc     []byte       // the document of the validation seen during the current step
 	lastVerdict int          // -1 none, 0 reject, 1 accept (during the current step)
 	vmu     sync.Mutex
 	targets []string
@@ -228,6 +249,7 @@ func newH(seed int64, hid string, out *bufio.Writer, ntargets int, persistent ma
 	h.plugin.Verdict = func(doc []byte) (bool, string) {
 		ok := !strings.Contains(string(doc), "BAD")
 		h.vmu.Lock()
+		h.lastDoc = append([]byte{}, doc...)
 		if ok {
 			h.lastVerdict = 1
 		} else {
@@ -617,6 +639,9 @@ func (h *H) allIDs() []recID {
 // reconcile runs one reconcile invocation, stopping it after `budget` store/device write calls (-1: no limit)
 func (h *H) reconcile(id recID, budget int) {
 	h.crash.reset(budget)
+	if id.kind == "tx" && budget < 0 && h.r.Intn(8) == 0 {
+		h.crash.arm(h.r.Intn(2))
+	}
 	h.vmu.Lock()
 	h.lastVerdict = -1
 	h.vmu.Unlock()
@@ -669,9 +694,12 @@ func (h *H) reconcile(id recID, budget int) {
 		res = "timeout"
 	}
 	calls := h.crash.count()
+	raced := h.crash.didRace()
 	h.crash.reset(-1)
 	h.vmu.Lock()
 	v := h.lastVerdict
+	doc := h.lastDoc
+	h.lastDoc = nil
 	h.vmu.Unlock()
 	var lab string
 	switch id.kind {
@@ -689,9 +717,60 @@ func (h *H) reconcile(id recID, budget int) {
 	b := "all"
 	if res == "crash" {
 		b = strconv.Itoa(calls)
+	} else if raced {
+		// the invocation lost the race for one proposal and gave up: what is stored is the work of both replicas,
+		// i.e. this invocation's writes so far (the lost Create included, with identical content)
+		b = strconv.Itoa(calls)
+		res = "raced:" + res
 	}
 	lab += fmt.Sprintf(" %s %d)", b, v)
+	if v != -1 {
+		res += "\t" + flattenDoc(doc)
+	}
 	h.emit(lab, res)
+}
+
+// flattenDoc lists the leaves of a validation document as hex(path)=hex(value), sorted; list entries are named by
+// their key member k (the only key name the scenarios use), which is not itself listed
+func flattenDoc(doc []byte) string {
+	if len(doc) > 20000 {
+		return "big"
+	}
+	var root interface{}
+	if err := json.Unmarshal(doc, &root); err != nil {
+		return "unparsable"
+	}
+	leaves := []string{}
+	var walk func(prefix string, n interface{}, inEntry bool)
+	walk = func(prefix string, n interface{}, inEntry bool) {
+		switch x := n.(type) {
+		case map[string]interface{}:
+			for name, c := range x {
+				if inEntry && name == "k" {
+					continue
+				}
+				if arr, ok := c.([]interface{}); ok {
+					for _, e := range arr {
+						if obj, ok := e.(map[string]interface{}); ok {
+							walk(fmt.Sprintf("%s/%s[k=%v]", prefix, name, obj["k"]), obj, true)
+						} else {
+							leaves = append(leaves, hx(prefix+"/"+name)+"="+hx(fmt.Sprint(e)))
+						}
+					}
+					continue
+				}
+				walk(prefix+"/"+name, c, false)
+			}
+		default:
+			leaves = append(leaves, hx(prefix)+"="+hx(fmt.Sprint(x)))
+		}
+	}
+	walk("", root, false)
+	sort.Strings(leaves)
+	if len(leaves) == 0 {
+		return "."
+	}
+	return strings.Join(leaves, ",")
 }
 
 func strategyExt(sync, ser bool) *gnmi_ext.Extension {
